@@ -55,6 +55,10 @@ func NewOffsetArray(offset int, values ...Value) Set {
 			n++
 		}
 	}
+	if n == 0 {
+		// nothing but holes: the trimming above only stops at a non-hole
+		return None
+	}
 
 	return Array{values: values, offset: offset, count: n}
 }
